@@ -29,7 +29,7 @@ pub fn prop() -> Prop {
 }
 
 fn describe(ctx: &Ctx) {
-    ctx.rule("sources: corpus files (29 multi-sheet) and generated multi-sheet workbooks saved by the library, opened with read_reader(.., false); histories of 0..10 operations over read_sheet, get_sheet_mut, get_sheet_by_name_mut, read_sheet_collection, cell edit, new_sheet, remove_sheet, set_sheet_name, workbook-level insert/remove row, then save and eager reload; oracle: differential against the eagerly opened twin driven by the same history + untouched sheets equal the original + edits present + Python leg (the lazily saved file passes the independent package validator; every sheet that was not edited decodes - cells, resolved styles, merges, hyperlinks, comments, validation/cf ranges - like the same sheet of the original file). Non-trivial = at save time >=1 sheet is still unloaded and the history has >=1 edit or sheet-list change; distinct by full case");
+    ctx.rule("sources: corpus files (29 multi-sheet) and generated / styled (C05 case type) / annotated (C06 spec) multi-sheet workbooks saved by the library, opened with read_reader(.., false); histories of 0..10 operations over read_sheet, get_sheet_mut (also past the end), get_sheet_by_name_mut, read_sheet_collection, cell edit, edit through get_active_sheet_mut, new_sheet, remove_sheet, set_sheet_name, workbook-level insert/remove row, then save and eager reload (plus the Python leg: the lazily saved file validates and every untouched sheet decodes like the original); oracle: differential against the eagerly opened twin driven by the same history + untouched sheets equal the original + edits present + Python leg (the lazily saved file passes the independent package validator; every sheet that was not edited decodes - cells, resolved styles, merges, hyperlinks, comments, validation/cf ranges - like the same sheet of the original file). Non-trivial = at save time >=1 sheet is still unloaded and the history has >=1 edit or sheet-list change; distinct by full case");
     ctx.assume("which sheets are materialised is tracked by the harness from the documented effect of each operation (is_deserialized is not public)");
     ctx.assume("sheets copied raw are compared with re-serialised ones on the semantic projection plus the style rendering of every cell whose eager twin has a non-default style (a cell written without s= and one written with s=\"0\" mean the same)");
 }
